@@ -747,6 +747,96 @@ pub fn recovery(trace: &[Value]) -> Vec<Value> {
     out
 }
 
+/// C11: operations, arrivals of control signals, application events, MAX_STREAMS advertisements
+pub fn streamsm(trace: &[Value]) -> Vec<Value> {
+    let mut out = vec![json!({"ev":"Reset","run":trace[0]["run"]})];
+    for e in trace {
+        let n = e["n"].as_i64().unwrap_or(-1);
+        if n > 1 || n < 0 {
+            continue;
+        }
+        let side = side_of(n);
+        match e["ev"].as_str().unwrap_or("") {
+            "TP" => out.push(json!({"ev":"Init","side":side,"msb":cap(&e["msb"]),"msu":cap(&e["msu"])})),
+            "Call" => {
+                let op = e["op"].as_str().unwrap_or("");
+                let k = e["res"]["k"].as_str().unwrap_or("");
+                let closed = e["pre"]["st"].as_i64().unwrap_or(0) >= 2;
+                match op {
+                    "write" | "finish" | "reset" | "stopped" | "stop" => {
+                        out.push(json!({"ev":"Op","side":side,"op":op,"id":e["id"],"res":k,
+                            "code":e["res"].get("code").map_or(-1, cap),"arg":e.get("code").map_or(-1, cap),
+                            "closed":closed}));
+                    }
+                    "read" => {
+                        let nch = e["res"]["chunks"].as_array().map_or(0, |a| a.len());
+                        let res = match k {
+                            "More" | "Blocked" if nch > 0 => "Data",
+                            "More" => "Blocked",
+                            o => o,
+                        };
+                        out.push(json!({"ev":"Op","side":side,"op":"read","id":e["id"],"res":res,
+                            "code":e["res"].get("code").map_or(-1, cap),"arg":-1,"closed":closed}));
+                    }
+                    "open" | "accept" => {
+                        out.push(json!({"ev":"Op","side":side,"op":op,"id":e["res"].get("id").map_or(-1, cap),
+                            "res":k,"code":-1,"arg":e["dir"],"closed":closed}));
+                    }
+                    _ => {}
+                }
+            }
+            "Rx" if e["kind"] == "conn" => {
+                let genuine = matches!(e["cls"].as_str().unwrap_or(""), "gen" | "dup" | "spoof" | "inject");
+                if !genuine {
+                    continue;
+                }
+                let dfr = &e["dfr"];
+                let mut fr = Vec::new();
+                for p in e["pk"].as_array().cloned().unwrap_or_default() {
+                    for f in frames_of(&p) {
+                        match f["f"].as_str().unwrap_or("") {
+                            "STOP_SENDING" if dfr[22].as_i64().unwrap_or(0) > 0 => {
+                                fr.push(json!({"k":"stop","id":f["id"],"code":cap(&f["code"])}));
+                            }
+                            "STREAM" if dfr[23].as_i64().unwrap_or(0) > 0 => {
+                                fr.push(json!({"k":if f["fin"] == true { "fin" } else { "used" },"id":f["id"],"code":-1}));
+                            }
+                            "RESET_STREAM" if dfr[17].as_i64().unwrap_or(0) > 0 => {
+                                fr.push(json!({"k":"rst","id":f["id"],"code":cap(&f["code"])}));
+                            }
+                            "MAX_STREAM_DATA" if dfr[9].as_i64().unwrap_or(0) > 0 => {
+                                fr.push(json!({"k":"used","id":f["id"],"code":-1}));
+                            }
+                            _ => {}
+                        }
+                    }
+                }
+                if !fr.is_empty() {
+                    out.push(json!({"ev":"Arr","side":side,"fr":fr}));
+                }
+            }
+            "AppEvent" => {
+                let k = e["e"]["k"].as_str().unwrap_or("");
+                if matches!(k, "Finished" | "Stopped" | "Readable" | "Writable" | "Opened" | "Available") {
+                    out.push(json!({"ev":"AppEv","side":side,"k":k,"id":e["e"].get("id").map_or(-1, cap),
+                        "code":e["e"].get("code").map_or(-1, cap),"dir":e["e"].get("dir").map_or(-1, cap)}));
+                }
+            }
+            "Tx" => {
+                for p in pkts_of(e) {
+                    for f in frames_of(p) {
+                        if f["f"] == "MAX_STREAMS" {
+                            out.push(json!({"ev":"MaxStreams","side":side,"uni":f["uni"],"v":cap(&f["v"])}));
+                        }
+                    }
+                }
+            }
+            _ => {}
+        }
+    }
+    out
+}
+
 pub fn project(name: &str, trace: &[Value]) -> Vec<Value> {
     match name {
         "lifecycle" => lifecycle(trace),
@@ -755,6 +845,7 @@ pub fn project(name: &str, trace: &[Value]) -> Vec<Value> {
         "auth" => auth(trace),
         "flow" => flow(trace),
         "recovery" => recovery(trace),
+        "streamsm" => streamsm(trace),
         "master" => trace.to_vec(),
         o => panic!("unknown projection {o}"),
     }
